@@ -37,6 +37,7 @@ var Properties = map[string]func(*Ctx){
 	"C15": C15,
 	"C13": C13,
 	"C14": C14,
+	"C18": C18,
 }
 
 func C14(c *Ctx) {
@@ -235,4 +236,10 @@ func C09(c *Ctx) {
 		return strings.Contains(fn, "UnlinkFromAll") || strings.Contains(fn, "LinkRemove") || strings.Contains(fn, "TaskDispatch") || strings.Contains(fn, "Died")
 	}, 3)
 	R1AgentsAppendOnly(c)
+}
+
+func C18(c *Ctx) {
+	R19OpTable(c)
+	R19Climb(c)
+	R19Eval(c)
 }
